@@ -83,3 +83,17 @@ Theorem C17_date_later_is_greater : forall (secs k : Z), (1 <= k <= 2147483647)%
   serial_partial_cmp (timestamp_of_secs secs) (timestamp_of_secs (secs + k)%Z) = Ok (Some Lt).
 Proof. exact date_later_is_greater. Qed.
 Print Assumptions C17_date_later_is_greater.
+
+Theorem C17_from_time_commutes_with_add : forall (secs k : Z), (0 <= k <= 2147483647)%Z ->
+  serial_add (serial_of_time secs) (Z.to_N k) = Ok (serial_of_time (secs + k)%Z).
+Proof. exact from_time_add. Qed.
+Print Assumptions C17_from_time_commutes_with_add.
+
+Theorem C17_time_later_is_greater : forall (secs k : Z), (1 <= k <= 2147483647)%Z ->
+  serial_partial_cmp (serial_of_time secs) (serial_of_time (secs + k)%Z) = Ok (Some Lt).
+Proof. exact time_later_is_greater. Qed.
+Print Assumptions C17_time_later_is_greater.
+
+Theorem C17_from_time_is_date_notation : forall secs : Z, serial_of_time secs = timestamp_of_secs secs.
+Proof. exact from_time_is_date_notation. Qed.
+Print Assumptions C17_from_time_is_date_notation.
